@@ -250,6 +250,10 @@ struct CallObs {
     budget_exceeded: bool,
     visits: u64,
     visit_budget_exhausted: bool,
+    /// the call was cut off at VISIT_CAP, below the deterministic bound
+    visit_inconclusive: bool,
+    /// Ok items delivered (containers) / output length (decompression)
+    delivered: u64,
     panic: Option<String>,
 }
 
@@ -265,8 +269,33 @@ fn call_budget(input_len: usize) -> u64 {
     4 * input_len as u64 + 4096
 }
 
+/// Deterministic bound on visitor callbacks of one call. Every array / map instance costs at
+/// least one byte of input (its count) and may declare at most `limit` items in total; a
+/// zero-width item (null, a record of nulls) costs no input, so the bound is a product:
+/// instances x items x callbacks per item (schema size, bounded by the generator).
+fn visit_bound(input_len: usize, limit: usize) -> u64 {
+    64u64.saturating_mul(input_len as u64 + 2).saturating_mul(limit as u64 + 64)
+}
+
+/// Calls are cut off here when the bound is larger: such a run is inconclusive (counted), not an alarm.
+const VISIT_CAP: u64 = 20_000_000;
+
 fn visit_budget(input_len: usize, limit: usize) -> u64 {
-    2 * (input_len as u64 + limit as u64) + 4096
+    visit_bound(input_len, limit).min(VISIT_CAP)
+}
+
+/// Fixed working memory of a codec library that reaches the Rust allocator: zstd's input buffer
+/// (`DCtx::in_size()` = 131075 bytes) and bzip2's block tables (4 bytes x 100 kB x level <= 9).
+/// Neither is sized from a length declared in the data beyond these constants.
+fn codec_workspace(akind: &str, bytes: &[u8], codec: Option<&CodecSpec>) -> usize {
+    let has = |needle: &[u8]| bytes.windows(needle.len()).any(|w| w == needle);
+    match (akind, codec) {
+        ("compressed_block", Some(CodecSpec::Bzip2(_))) => 4 << 20,
+        ("compressed_block", Some(CodecSpec::Zstd(_))) => 256 << 10,
+        ("container", _) if has(b"bzip2") => 4 << 20,
+        ("container", _) if has(b"zstandard") => 256 << 10,
+        _ => 0,
+    }
 }
 
 /// One library call inside an allocator window and a panic guard, over a budgeted source.
@@ -294,9 +323,19 @@ where
         source_calls: src.calls,
         budget_exceeded: src.budget_exceeded,
         visits: anyvalue::visits(),
-        visit_budget_exhausted: anyvalue::budget_exhausted(),
+        visit_budget_exhausted: anyvalue::budget_exhausted() && visit_bound(bytes.len(), limit) <= VISIT_CAP,
+        visit_inconclusive: anyvalue::budget_exhausted() && visit_bound(bytes.len(), limit) > VISIT_CAP,
+        delivered: DELIVERED.with(|d| d.replace(0)),
         panic,
     }
+}
+
+thread_local! {
+    static DELIVERED: std::cell::Cell<u64> = const { std::cell::Cell::new(0) };
+}
+
+fn delivered(n: u64) {
+    DELIVERED.with(|d| d.set(d.get() + n));
 }
 
 fn normalise(msg: &str) -> String {
@@ -308,7 +347,7 @@ fn normalise(msg: &str) -> String {
     s.chars().take(90).collect()
 }
 
-fn judge_call(o: &CallObs, input_len: usize, limit: usize, akind: &str) -> Option<Failure> {
+fn judge_call(o: &CallObs, input_len: usize, limit: usize, akind: &str, workspace: usize) -> Option<Failure> {
     if let Some(p) = &o.panic {
         return Some(Failure::new(
             "panic",
@@ -316,13 +355,13 @@ fn judge_call(o: &CallObs, input_len: usize, limit: usize, akind: &str) -> Optio
             format!("{} panicked on a {input_len}-byte {akind} input: {p}", o.entry),
         ));
     }
-    let bound = 4usize.saturating_mul(limit).saturating_add(64 * 1024).saturating_add(8 * input_len);
+    let bound = 4usize.saturating_mul(limit).saturating_add(64 * 1024).saturating_add(8 * input_len).max(workspace);
     if o.window.largest > bound {
         return Some(Failure::new(
             "over-allocation",
             format!("C05 over-allocation entry={} artefact={akind}", o.entry),
             format!(
-                "{} requested a single allocation of {} bytes for a {input_len}-byte {akind} input with the limit at {limit} (bound 4*limit+64KiB+8*input = {bound}); outcome {}: {}",
+                "{} requested a single allocation of {} bytes for a {input_len}-byte {akind} input with the limit at {limit} (bound max(4*limit+64KiB+8*input, codec workspace {workspace}) = {bound}); outcome {}: {}",
                 o.entry, o.window.largest, o.outcome, o.err
             ),
         ));
@@ -337,7 +376,7 @@ fn judge_call(o: &CallObs, input_len: usize, limit: usize, akind: &str) -> Optio
                 o.source_calls,
                 call_budget(input_len),
                 o.visits,
-                visit_budget(input_len, limit)
+                visit_bound(input_len, limit)
             ),
         ));
     }
@@ -392,8 +431,9 @@ fn run_calls(case: &Case, b: &Built, bytes: &[u8], limit: usize) -> Vec<CallObs>
                     if i > max_items {
                         break;
                     }
-                    if let Err(e) = item {
-                        last = Err(e.to_string());
+                    match item {
+                        Err(e) => last = Err(e.to_string()),
+                        Ok(_) => delivered(1),
                     }
                 }
                 last
@@ -405,8 +445,9 @@ fn run_calls(case: &Case, b: &Built, bytes: &[u8], limit: usize) -> Vec<CallObs>
                     if i > max_items {
                         break;
                     }
-                    if let Err(e) = item {
-                        last = Err(e.to_string());
+                    match item {
+                        Err(e) => last = Err(e.to_string()),
+                        Ok(_) => delivered(1),
                     }
                 }
                 last
@@ -432,7 +473,11 @@ fn run_calls(case: &Case, b: &Built, bytes: &[u8], limit: usize) -> Vec<CallObs>
             let c = codec.to_lib();
             vec![observe_call("codec.decompress", bytes, &plan, limit, |_src| {
                 let mut v = bytes.to_vec();
-                c.decompress(&mut v).map_err(|e| e.to_string())
+                let r = c.decompress(&mut v).map_err(|e| e.to_string());
+                if r.is_ok() {
+                    delivered(v.len() as u64);
+                }
+                r
             })]
         }
     }
@@ -488,7 +533,7 @@ fn run_case_inner(case: &Case, ctx: &mut Ctx, limit: usize) -> Option<Failure> {
                     ctx.eval();
                     PROGRESS.fetch_add(1, Ordering::Relaxed);
                     ctx.steps(o.source_calls);
-                    if let Some(f) = judge_call(&o, buf.len(), limit, akind) {
+                    if let Some(f) = judge_call(&o, buf.len(), limit, akind, 0) {
                         return Some(Failure { detail: format!("{} [bytes={}]", f.detail, crate::common::hex(&buf)), ..f });
                     }
                 }
@@ -517,6 +562,23 @@ fn run_case_inner(case: &Case, ctx: &mut Ctx, limit: usize) -> Option<Failure> {
     ctx.ev_u(bytes.len() as u64);
     let calls = run_calls(case, &b, &bytes, limit);
     let dkind = case.damages.first().map(|d| d.kind()).unwrap_or("none");
+    let codec = match &case.artefact {
+        Artefact::Compressed { codec, .. } => Some(codec),
+        _ => None,
+    };
+    let workspace = codec_workspace(akind, &bytes, codec);
+    // an undamaged container holding one block that inflates past the limit: nothing of it may be delivered
+    let bomb = match &case.artefact {
+        Artefact::Container { blocks, codec, extra_meta, schema_override, .. }
+            if *codec != CodecSpec::Null && case.damages.is_empty() && extra_meta.is_empty() && schema_override.is_none() && blocks.len() == 1 =>
+        {
+            matches!(blocks[0].as_slice(), [RV::Bytes(v)] if v.len() > limit)
+        }
+        _ => false,
+    };
+    if bomb {
+        ctx.agg.count("probe.container_block_inflates_past_limit");
+    }
     let mut first = None;
     for o in &calls {
         ctx.eval();
@@ -528,8 +590,25 @@ fn run_case_inner(case: &Case, ctx: &mut Ctx, limit: usize) -> Option<Failure> {
             ctx.agg.count(&format!("probe.limit_guard_fired.{lname}"));
         }
         ctx.agg.state(format!("{lname}|{}|{akind}|{dkind}|{}", o.entry, o.outcome));
+        if o.visit_inconclusive {
+            ctx.agg.count("probe.visit_cap_hit_below_bound(inconclusive)");
+        }
         if first.is_none() {
-            first = judge_call(o, bytes.len(), limit, akind);
+            first = judge_call(o, bytes.len(), limit, akind, workspace);
+        }
+        if first.is_none() && o.entry == "codec.decompress" && o.outcome == "ok" && o.delivered as usize > limit {
+            first = Some(Failure::new(
+                "decompression-cap",
+                format!("C05 decompression-cap entry={} artefact={akind}", o.entry),
+                format!("{} returned {} decompressed bytes from a {}-byte block with the limit at {limit}", o.entry, o.delivered, bytes.len()),
+            ));
+        }
+        if first.is_none() && bomb && o.delivered > 0 {
+            first = Some(Failure::new(
+                "decompression-cap",
+                format!("C05 decompression-cap entry={} artefact={akind}", o.entry),
+                format!("{} delivered {} item(s) of a block that inflates to more than the limit of {limit} bytes", o.entry, o.delivered),
+            ));
         }
     }
     first
@@ -664,6 +743,28 @@ impl Property for C05 {
         let artefact = match wr.below(12) {
             0..=3 => Artefact::Datum { value: vg.gen(&mut wr, &schema, 0), schema },
             4 => Artefact::Single { value: vg.gen(&mut wr, &schema, 0), schema },
+            5..=8 if wr.chance(1, 40) => {
+                // a block that inflates past the small limits (decompression bomb inside a file)
+                let n = *wr.pick(&[5000usize, 70_000, 70_000, 1_200_000, 1_200_000, 6_000_000]);
+                let codec = match wr.below(6) {
+                    0 => CodecSpec::Deflate(-1),
+                    1 => CodecSpec::Snappy,
+                    2 => CodecSpec::Zstd(1),
+                    3 => CodecSpec::Bzip2(1),
+                    4 => CodecSpec::Bzip2(9),
+                    _ => CodecSpec::Xz(0),
+                };
+                return Some(Case {
+                    limit,
+                    artefact: Artefact::Container { schema: RS::Bytes, codec, blocks: vec![vec![RV::Bytes(vec![*wr.pick(&[0u8, 7, 255]); n])]], extra_meta: vec![], schema_override: None },
+                    damages: vec![],
+                    chunk: if sr.chance(1, 2) { Chunk::All } else { Chunk::Hashed { salt: sr.next_u64(), max: 4096 } },
+                    eintr_every: *sr.pick(&[0u64, 0, 5]),
+                    err_at: None,
+                    reader_schema: sr.chance(1, 3),
+                    salt: sr.next_u64(),
+                });
+            }
             5..=8 => {
                 let nb = wr.range(1, 3) as usize;
                 let blocks = (0..nb).map(|_| (0..wr.range(1, 4)).map(|_| vg.gen(&mut wr, &schema, 0)).collect()).collect();
